@@ -11,13 +11,13 @@ cd "$WT" || exit 2
 DEMO=$(ls tests/demo_*.rs | head -1)
 REL=""
 grep -q -- "--release" seed/meta.json 2>/dev/null && REL="--release"
-git stash -q 2>/dev/null        # source change away (untracked demo + seed stay)
+git checkout -q -- .        # source change away (untracked demo + seed stay); no `git stash`: it is shared between worktrees
 git apply --check seed/patch.diff && echo "patch applies: yes" > "$OUT/confirm.log" || echo "patch applies: NO" > "$OUT/confirm.log"
 # without the change: demo must pass
 cargo test $REL --offline --test "$(basename "$DEMO" .rs)" > "$OUT/demo_without.log" 2>&1
 W=$(grep -E "^test result" "$OUT/demo_without.log" | tail -1)
 echo "demo without patch: $W" >> "$OUT/confirm.log"
-git checkout -q -- . ; git stash drop -q 2>/dev/null
+git checkout -q -- .
 git apply seed/patch.diff
 rm -rf "$WT/target/debug/build/chess-"* "$WT/target/release/build/chess-"* 2>/dev/null
 mv "$DEMO" /tmp/$LOW.demo.rs.aside
